@@ -58,6 +58,12 @@ def inners():
                        ('rep', ('str', 'b'), ('name', 'n'), ('name', 'n'))), {}, []),
         ('let-read', ('let', 'v', T, ('py', 'v')), {}, []),
         ('let-where', ('let', 'v', T, ('where', T, ('py', 'lambda w: w != v'))), {}, []),
+        # a choice whose LAST alternative always succeeds and is the only place that calls a rule / template
+        ('choice-opt-ref', ('alt', [('str', 'a'), ('opt', ('ref', 'Rb'))]), {'Rb': ('str', 'b')}, []),
+        ('choice-star-ref', ('alt', [('str', 'a'), ('star', ('ref', 'Rb'))]), {'Rb': ('str', 'b')}, []),
+        ('choice-opt-call', ('alt', [('str', 'a'), ('opt', ('call', 'W', [('str', 'b')]))]), {}, [('rule', 'W', ['p'], ('seq', [('ref', 'p'), ('opt', ('str', 'b'))]))]),
+        ('optref-or-fail', ('alt', [('opt', ('ref', 'Rb')), ('fail', 'never')]), {'Rb': ('str', 'b')}, []),
+        ('choice-ref-first', ('alt', [('ref', 'Rb'), ('opt', ('str', 'a'))]), {'Rb': ('str', 'b')}, []),
     ]
 
 
